@@ -96,6 +96,22 @@ Definition entry_cert_ok (g : nat) : bool :=
   | _ => false
   end.
 
+(* a CALL that directly follows ID_FUNC_ADDR g (the way the emitter calls a function it knows: args,
+   environment vector, ID_FUNC_ADDR g, CALL) must find exactly np g argument slots between the frame
+   header and the function value: len - 1 - F = np g, where len - F is d - (o + 5) inside an open MARK
+   at depth o and d + base f for a frame-reusing (tail) call *)
+Definition direct_arity_ok (a f d : nat) (os : list nat) : bool :=
+  match code (a - 1) with
+  | Some (AMkFunc g) =>
+      if 1 <=? a then
+        match os with
+        | [] => d + base f =? np g + 1
+        | o :: _ => d =? o + 6 + np g
+        end
+      else true
+  | _ => true
+  end.
+
 Definition check_norm (a f d : nat) (os : list nat) (i : ainstr) : bool :=
   os_ok d os &&
   match i with
@@ -114,7 +130,8 @@ Definition check_norm (a f d : nat) (os : list nat) (i : ainstr) : bool :=
      unwinds through the header below P, which exists only inside a function -- at top level
      (P = 0) the callee's RET would find no header (Crash BadHeader), hence is_entry f *)
   | ACall => (1 <=? avail d os) && handler_ok a f &&
-             (match os with [] => (1 <=? d + base f) && is_entry f | _ => true end)
+             (match os with [] => (1 <=? d + base f) && is_entry f | _ => true end) &&
+             direct_arity_ok a f d os
   | ARet ffi => (match os with [] => true | _ => false end) && (d =? 1) && (Bool.eqb ffi (is_ffi f)) &&
                 is_entry f
   | ARethrow => false
